@@ -21,6 +21,14 @@ CHECKS.update({
    text="The only process-global state a count reads is the class-level state of the arithmetic classes. In the model it is the argument of the arithmetic instance; the one component that can be stale (Guarded __scaledg) is proved irrelevant: the Guarded instance and the trace of every count are equal for all stale values (Coq, via functional extensionality). Tie: histories of earlier elections run in one process vs fresh-process results (report, dump, JSON byte-equal).",
    note="Trusted: Coq kernel, stdlib axiom functional_extensionality_dep, the hand model of initialize() (which fields are assigned on which branch), tied by the history driver; interpreter-level state outside the three classes is not modelled.",
    technique="Coq proof (instance equality transporting whole counts) + history differential testing", ref="DESIGN.md §6 C20"),
+ 'C15': dict(
+   text="Hand-written executable Coq model of the BLT reader (tokenizer, parser, options, BallotLine, __validate, defaults; code points as integers; Unicode whitespace / line-boundary / decimal-digit tables regenerated from the running interpreter and compared on all 0x110000 code points). Machine-checked, axiom-free theorems: the raw tokens and the tokens the reader yields do not depend on which Unicode whitespace / line boundaries separate them (all layouts); # comments and nested /* */ comment runs are skipped (tok_line level); for the core format (numbers in any digits int() accepts, -n withdrawals, multipliers, equal rankings, quoted multi-word names, title/source/comment, trailing junk) every token rendering of every valid abstract election, under every whitespace layout, parses to exactly its normal form (withdrawn stripped, emptied ballots dropped, total = sum of kept multipliers). Bracket options, nicknames and ballot ids are not covered by the token-level theorem (labelled _partial); they are covered by the differential run: random abstract elections x random renderings, implementation vs model vs the abstract election.",
+   note="Trusted: Coq kernel, extraction, the table generator (checked exhaustively against the interpreter each run), the harness generators/oracle, CPython str/re/int semantics, the utf-8-sig codec. The link model<->code is differential testing.",
+   technique="Coq proof over a hand model + regenerated Unicode tables + differential correspondence with an abstract-election oracle", ref="DESIGN.md §6 C15"),
+ 'C16': dict(
+   text="On the same model: machine-checked, axiom-free theorems that reading any text whatsoever (total function, structurally recursive: no hang) yields a profile satisfying valid_profile or ElectionProfileError, the only other reachable outcome being OverflowError when the file declares >= 2^64 candidates (refuted witness + open finding KP1; no UnboundLocalError / ValueError / KeyError / IndexError / StopIteration branch is reachable); every accepted profile is valid (ranges, no withdrawn/repeated candidate in a ranking, seats and ballot-count bounds, total = sum of multipliers, names/order/tie/nick defined exactly on 1..nCand, tie and nick injective); the profile lookups of Election.__init__ cannot fail on a valid profile. Tie to the code: malformed-text stream (corpus, token soups, truncation at every token, single-token edits, arbitrary Unicode) through implementation and model, plus valid_profile and all 11 rule constructors on the implementation.",
+   note="Trusted as for C15. The constructor clause is proved only for the profile-dependent lookups; the rest is tested on the implementation. Implementation-side 'never hangs' is a 20 s per-case budget.",
+   technique="Coq proof over a hand model (outcome type with every exception explicit) + differential correspondence + implementation-side oracles", ref="DESIGN.md §6 C16"),
 })
 NOT_YET = {}
 def main():
